@@ -3,6 +3,12 @@
 import json, subprocess, sys
 CHECKS = {
  # id: (category, technique, text, note)
+ "C01": ("exploration", "differential twin (rolled-back vs fresh replay of the surviving prefix) + acceptance model, Obs comparison (runtime monitoring)",
+         "Chains of reorg rounds on generated histories on the real engine; acceptance predicted by a model of the statement (N <= height, N + 10 >= highest block ever finalised); accepted reorgs compared over all identifiers (incl. orphaned) with a fresh instance fed only the surviving history, then both extended identically; refused reorgs must change nothing.",
+         "Sampled histories and targets (edge-biased), not all; bugs shared by rolled-back and fresh instance invisible here (C13 has a model)."),
+ "C02": ("exploration", "twin processes (different HashMap seeds/dirs, restart after commit) + pinned sha256 digests of a recorded corpus on three networks",
+         "Two OS processes replay one recorded call list; transcripts and Obs at every boundary compared byte for byte after key sorting and zeroing mineTimestamp (list order kept). Recorded corpus in golden/<network>.json replayed and its digests compared with the pinned ones (same protocol/db version only).",
+         "Golden digests pin today's behaviour of the recorded corpus, not the protocol; twins share deterministic bugs."),
  "C03": ("exploration", "differential twins over commit schedules + Obs comparison at every block boundary (runtime monitoring)",
          "Real engine driven in-process through the JSON-RPC method table; one generated history replayed under never/every/every-k/random commit schedules, all responses and the full read surface (Obs) compared at every boundary; clearCaches/reopen compared with a fresh replay of the last commit and then extended. Held = no difference on the executions of this run.",
          "Obs covers the public read surface only; twins share schedule-independent bugs; sampled histories, not all."),
